@@ -427,7 +427,7 @@ func runC06(res *Result, rng *RNG, tier string, outDir string) {
 	// ---- (b) random trees, (c) malformed sequences
 	nTrees, nMal := 400, 200
 	if tier == "thorough" {
-		nTrees, nMal = 4000, 1500
+		nTrees, nMal = 12000, 4000
 	}
 	var exprCases []string
 	var exprDescs []string
